@@ -180,4 +180,22 @@ theorem clock_generic_roundtrip (h mi : Int) (h0 : 0 ≤ h) (h1 : h ≤ 23) (m0 
     exact hne (List.append_eq_nil_iff.mp hh).1
   exact (pattern_roundtrip .time ⟨invariantCulture, 74, clockSteps⟩ (timeGetter nod) [nod] clock_delimited hval hr hne).2
 
+/-! ## case folding beyond ASCII: the comparison is a parameter (`lowC cu`: ASCII plus the run's table `cu.fold`); every
+    theorem of `C07Text.lean` holds for ANY folding function (idempotent or not) -/
+
+/-- a culture record with French month names and the folding table of its non-ASCII letters -/
+def eteCulture : Culture :=
+  { invariantCulture with
+    longMonths := ["", "janvier", "février", "mars", "avril", "mai", "juin", "juillet", "août", "septembre", "octobre",
+      "novembre", "décembre", ""].map String.toList,
+    longMonthsGen := ["", "janvier", "février", "mars", "avril", "mai", "juin", "juillet", "août", "septembre", "octobre",
+      "novembre", "décembre", ""].map String.toList,
+    fold := [('é', 'é'), ('É', 'é'), ('û', 'û'), ('Û', 'û')] }
+
+example : matchCI (lowC eteCulture) "février".toList "FÉVRIER 2024".toList = some " 2024".toList := by decide +kernel
+example : matchCI (lowC invariantCulture) "février".toList "FÉVRIER 2024".toList = none := by decide +kernel
+example : monthNamesOK eteCulture 4 true = true := by decide +kernel
+example : parseCompiled .date ⟨eteCulture, 2176, [.monthText 4, .lit [' '], .num .year .year 4 4 (-9999) 9999]⟩
+    "AOÛT 2024".toList = .ok (some [2024, 8, 1]) := by decide +kernel
+
 end Pyoda.C07
